@@ -186,7 +186,7 @@ func opVersionToSpan(typ tokType, op string, lo *Version) (span, error) {
 
 	case tokLess:
 		// Special horrible cases.
-		if lo.all(wildcard) || lo.all(0) {
+		if lo.all(wildcard) || lo.all(0) && len(lo.pre) == 0 {
 			return span{rank: empty}, nil
 		}
 		for i, val := range hi.num {
